@@ -321,7 +321,18 @@ func (E2EFaultEngine) Run(prop string, ci any) *core.Outcome {
 	}
 	if r.Doc != nil {
 		// (2) files read under secure messaging must be identical; CardAccess is read in the clear
-		same := checkFilesIdentical(out, "C11", r, map[string]bool{"CardAccess": true})
+		clear := map[string]bool{"CardAccess": true}
+		for _, ex := range r.Chip.Log {
+			// files (or parts of files) that travelled without secure messaging in this run, e.g. EF.DIR read before the
+			// fall-back to BAC after a PACE attempt that a fault broke
+			if !ex.ViaSM && strings.HasPrefix(ex.Action, "read-binary 2F00") {
+				clear["DIR"] = true
+			}
+			if !ex.ViaSM && strings.HasPrefix(ex.Action, "read-binary 011D") {
+				clear["CardSecurity"] = true
+			}
+		}
+		same := checkFilesIdentical(out, "C11", r, clear)
 		sum := r.Doc.Summary()
 		d := r.Doc.Document
 		if d.Mf.CardAccess != nil && string(d.Mf.CardAccess.RawData) != string(r.W.MF[chip.FidCardAccess]) {
